@@ -31,6 +31,40 @@ extern "C" void __sanitizer_set_death_callback(void (*)(void));
 extern "C" const char* __ubsan_default_options() { return "abort_on_error=1"; }
 #endif
 
+// Heap poisoning: fresh storage from the global operator new is filled with a non-zero pattern, so that a member a
+// change leaves uninitialised (an atomic flag or counter, a default-initialised array of flags) does not happen to
+// read as 0 / false in a young process.  Not under ASan (it has its own allocator and fill) and not when the driver
+// brings its own replacement (VS_OWN_OPERATOR_NEW).
+#if !defined(__SANITIZE_ADDRESS__) && !defined(VS_OWN_OPERATOR_NEW)
+inline void* vs_poisoned_alloc(std::size_t n)
+{
+    void* p = std::malloc(n ? n : 1);
+    if (p == nullptr) throw std::bad_alloc();
+    std::memset(p, 0xA5, n);
+    return p;
+}
+void* operator new(std::size_t n) { return vs_poisoned_alloc(n); }
+void* operator new[](std::size_t n) { return vs_poisoned_alloc(n); }
+void operator delete(void* p) noexcept { std::free(p); }
+void operator delete[](void* p) noexcept { std::free(p); }
+void operator delete(void* p, std::size_t) noexcept { std::free(p); }
+void operator delete[](void* p, std::size_t) noexcept { std::free(p); }
+inline void* vs_poisoned_alloc(std::size_t n, std::align_val_t a)
+{
+    std::size_t al = static_cast<std::size_t>(a);
+    void* p = std::aligned_alloc(al, ((n ? n : 1) + al - 1) / al * al);
+    if (p == nullptr) throw std::bad_alloc();
+    std::memset(p, 0xA5, n);
+    return p;
+}
+void* operator new(std::size_t n, std::align_val_t a) { return vs_poisoned_alloc(n, a); }
+void* operator new[](std::size_t n, std::align_val_t a) { return vs_poisoned_alloc(n, a); }
+void operator delete(void* p, std::align_val_t) noexcept { std::free(p); }
+void operator delete[](void* p, std::align_val_t) noexcept { std::free(p); }
+void operator delete(void* p, std::size_t, std::align_val_t) noexcept { std::free(p); }
+void operator delete[](void* p, std::size_t, std::align_val_t) noexcept { std::free(p); }
+#endif
+
 namespace vs {
 struct Case {
     long id = 0;
